@@ -29,7 +29,7 @@ struct Case {
     deferred: bool,
 }
 
-const CONN_VALUES: [Option<&str>; 12] = [
+const CONN_VALUES: [Option<&str>; 16] = [
     None,
     Some("close"),
     Some("Close"),
@@ -42,6 +42,10 @@ const CONN_VALUES: [Option<&str>; 12] = [
     Some("close, foo"),
     Some("keep-alive, foo"),
     Some("foo,bar"),
+    Some("Upgrade"),
+    Some("keep-alive, Upgrade"),
+    Some("TE, close"),
+    Some("TE, Keep-Alive"),
 ];
 
 fn request(path: &str, version: &str, conn: Option<&str>) -> Vec<u8> {
